@@ -14,6 +14,9 @@ type fieldEvent struct {
 	Pos    token.Pos // position in the root function (the call site for indirect accesses)
 	Direct bool      // `subj.F` written in the root function itself
 	Write  bool      // the access is an assignment target / address-of / inc-dec
+	// Derived: the access happens (at any depth) inside a helper that computes derived
+	// information (Type, Sig, Operands, Succs, AssignIDs): it is not part of the printed text
+	Derived bool
 	Via    string    // for indirect accesses: the function in which the field is touched
 	Panic  bool      // the access occurs inside the argument of a panic(...) call (diagnostics only)
 }
@@ -157,7 +160,8 @@ func (c *Ctx) subjectFieldsRec(fn *types.Func, subj int, visiting map[subjKey]bo
 		for _, e := range c.subjectFieldsRec(callee, s, visiting) {
 			// Via names the first hop from the root function (what the root itself calls)
 			via := funcKey(callee)
-			events = append(events, fieldEvent{Field: e.Field, Pos: pos, Direct: false, Write: e.Write, Via: via, Panic: e.Panic || inPanic(pos)})
+			events = append(events, fieldEvent{Field: e.Field, Pos: pos, Direct: false, Write: e.Write, Via: via, Panic: e.Panic || inPanic(pos),
+				Derived: e.Derived || derivedHelpers[callee.Name()]})
 		}
 	}
 	ast.Inspect(fd.Body, func(n ast.Node) bool {
